@@ -1,13 +1,767 @@
 /-
-Helper lemmas for LC/Props/C20Heap.lean. TO BE PROVED (no sorry may remain).
+Helper lemmas for LC/Props/C20Heap.lean: sift-up / sift-down correctness of the
+`container/heap` model in LC/Model/Heap.lean.
+
+Positions are compared through `NL less a j k` ("the payload at `j` is not
+strictly below the payload at `k`", vacuous out of range); `swap` acts on it as
+the transposition `tr`.  `HeapN` is heap order on a prefix, `HeapEx` is heap
+order on a prefix except at one position.  `down_heap` / `up_heap` repair a
+`HeapEx` state; `fixAt` is the common tail of `Remove` and `Fix`.
+Core Lean only.
 -/
 import LC.Model.Heap
-
 namespace LC.Heap
 variable {α : Type} {less : α → α → Bool}
 
--- required by LC/Props/C20Heap.lean (names and statements are fixed):
---   push_heapInv, push_idxInv, push_perm, pop_isSome', pop_spec', remove_spec',
---   setFix_spec', run_inv, nonvacuous_example
+theorem getElem?_swap (a : Array (E α)) (i j k : Nat) (hi : i < a.size) (hj : j < a.size) :
+    (swap a i j)[k]? =
+      if k = j then some { a[i] with index := j }
+      else if k = i then some { a[j] with index := i } else a[k]? := by
+  unfold swap
+  simp only [hi, hj, and_self, dite_true]
+  simp only [Array.getElem?_modify, Array.getElem?_set]
+  by_cases h1 : k = j <;> by_cases h2 : k = i <;> by_cases h3 : i = j <;> simp_all <;> grind
+
+/-- the transposition of `x` and `y` -/
+def tr (x y k : Nat) : Nat := if k = y then x else if k = x then y else k
+
+/-- payload at position `j`, if any -/
+def gv (a : Array (E α)) (j : Nat) : Option α := a[j]?.map (·.val)
+
+theorem gv_of_lt (a : Array (E α)) (j : Nat) (h : j < a.size) : gv a j = some a[j].val := by
+  simp [gv, h]
+
+theorem gv_swap (a : Array (E α)) (i j k : Nat) (hi : i < a.size) (hj : j < a.size) :
+    gv (swap a i j) k = gv a (tr i j k) := by
+  unfold gv tr
+  rw [getElem?_swap a i j k hi hj]
+  split
+  · simp [hi]
+  · split
+    · simp [hj]
+    · rfl
+
+theorem gv_swap_of_ne (a : Array (E α)) (i j k : Nat) (hi : k ≠ i) (hj : k ≠ j) :
+    gv (swap a i j) k = gv a k := by
+  by_cases h : i < a.size ∧ j < a.size
+  · rw [gv_swap a i j k h.1 h.2]; simp [tr, hi, hj]
+  · unfold swap; simp [h]
+
+/-- "not less": the payload at `j` is not strictly below the one at `k`
+(vacuous when either position is out of range) -/
+def NL (less : α → α → Bool) (a : Array (E α)) (j k : Nat) : Prop :=
+  ∀ x y, gv a j = some x → gv a k = some y → less x y = false
+
+theorem NL_swap (a : Array (E α)) (i j p q : Nat) (hi : i < a.size) (hj : j < a.size) :
+    NL less (swap a i j) p q ↔ NL less a (tr i j p) (tr i j q) := by
+  unfold NL; rw [gv_swap a i j p hi hj, gv_swap a i j q hi hj]
+
+theorem NL_get (a : Array (E α)) (j k : Nat) (hj : j < a.size) (hk : k < a.size) :
+    NL less a j k ↔ less a[j].val a[k].val = false := by
+  unfold NL; rw [gv_of_lt a j hj, gv_of_lt a k hk]
+  constructor
+  · intro h; exact h _ _ rfl rfl
+  · intro h x y hx hy; cases hx; cases hy; exact h
+
+theorem NL_refl (sw : StrictWeak less) (a : Array (E α)) (j : Nat) : NL less a j j := by
+  intro x y hx hy; rw [hx] at hy; cases hy; exact sw.irrefl x
+
+theorem NL_trans (sw : StrictWeak less) (a : Array (E α)) (j k l : Nat) (hk : k < a.size)
+    (h1 : NL less a j k) (h2 : NL less a k l) : NL less a j l := by
+  intro x z hx hz
+  exact sw.ntrans x _ z (h1 x _ hx (gv_of_lt a k hk)) (h2 _ z (gv_of_lt a k hk) hz)
+
+theorem StrictWeak.asymm (sw : StrictWeak less) (x y : α) (h : less x y = true) :
+    less y x = false := by
+  cases h' : less y x
+  · rfl
+  · have := sw.trans x y x h h'; rw [sw.irrefl] at this; cases this
+
+theorem NL_of_lt (sw : StrictWeak less) (a : Array (E α)) (j k : Nat) (hj : j < a.size)
+    (hk : k < a.size) (h : less a[j].val a[k].val = true) : NL less a k j := by
+  rw [NL_get a k j hk hj]; exact sw.asymm _ _ h
+
+/-- `less j k` and `¬ less l k` give `¬ less l j` -/
+theorem NL_of_lt_of_NL (sw : StrictWeak less) (a : Array (E α)) (j k l : Nat) (hj : j < a.size)
+    (hk : k < a.size) (h : less a[j].val a[k].val = true) (h2 : NL less a l k) :
+    NL less a l j := by
+  intro x y hx hy
+  rw [gv_of_lt a j hj] at hy; cases hy
+  cases h' : less x a[j].val
+  · rfl
+  · have := sw.trans _ _ _ h' h
+    rw [h2 x _ hx (gv_of_lt a k hk)] at this; cases this
+
+
+/-! ### one step of `downLoop` -/
+
+theorem downLoop_step (sw : StrictWeak less) (a : Array (E α)) (i n : Nat) (hn : n ≤ a.size) :
+    (downLoop less a i n = (a, i) ∧ ∀ k, 0 < k → k < n → (k - 1) / 2 = i → NL less a k i) ∨
+    (∃ j, 0 < j ∧ (j - 1) / 2 = i ∧ j < n ∧
+      downLoop less a i n = downLoop less (swap a i j) j n ∧ NL less a i j ∧
+      ∀ k, 0 < k → k < n → (k - 1) / 2 = i → NL less a k j) := by
+  have key : ∀ (h1 : 2 * i + 1 < n) (j : Nat),
+      j = (if h2 : 2 * i + 1 + 1 < n then
+            (if less (a[2 * i + 1 + 1]'(by omega)).val (a[2 * i + 1]'(by omega)).val then
+              2 * i + 1 + 1 else 2 * i + 1)
+          else 2 * i + 1) →
+      (0 < j ∧ (j - 1) / 2 = i) ∧ ∀ k, 0 < k → k < n → (k - 1) / 2 = i → NL less a k j := by
+    intro h1 j hj
+    by_cases h2 : 2 * i + 1 + 1 < n
+    · by_cases h3 : less (a[2 * i + 1 + 1]'(by omega)).val (a[2 * i + 1]'(by omega)).val = true
+      · simp only [h2, h3, dite_true, if_true] at hj
+        subst hj
+        refine ⟨by omega, ?_⟩
+        intro k hk0 hkn hkp
+        have : k = 2 * i + 1 ∨ k = 2 * i + 1 + 1 := by omega
+        rcases this with rfl | rfl
+        · exact NL_of_lt sw a _ _ (by omega) (by omega) h3
+        · exact NL_refl sw a _
+      · simp only [h2, h3, dite_true, Bool.false_eq_true, if_false] at hj
+        subst hj
+        refine ⟨by omega, ?_⟩
+        intro k hk0 hkn hkp
+        have : k = 2 * i + 1 ∨ k = 2 * i + 1 + 1 := by omega
+        rcases this with rfl | rfl
+        · exact NL_refl sw a _
+        · rw [NL_get a _ _ (by omega) (by omega)]; simpa using h3
+    · simp only [h2, dite_false] at hj
+      subst hj
+      refine ⟨by omega, ?_⟩
+      intro k hk0 hkn hkp
+      have : k = 2 * i + 1 := by omega
+      subst this
+      exact NL_refl sw a _
+  fun_cases downLoop less a i n
+  · rename_i j1 h1 j2 j hjn hlt
+    obtain ⟨⟨hj0, hjp⟩, hjk⟩ := key h1.1 j rfl
+    right
+    exact ⟨j, hj0, hjp, hjn, rfl, NL_of_lt sw a _ _ (by omega) (by omega) hlt, hjk⟩
+  · rename_i j1 h1 j2 j hjn hlt
+    obtain ⟨⟨hj0, hjp⟩, hjk⟩ := key h1.1 j rfl
+    left
+    refine ⟨rfl, fun k hk0 hkn hkp => ?_⟩
+    refine NL_trans sw a k j i (by omega) (hjk k hk0 hkn hkp) ?_
+    rw [NL_get a _ _ (by omega) (by omega)]; simpa using hlt
+  · rename_i j1 h1
+    left
+    refine ⟨rfl, fun k hk0 hkn hkp => ?_⟩
+    exfalso; apply h1; simp only [j1]; constructor <;> omega
+
+/-! ### sizes -/
+
+@[simp] theorem size_up (a : Array (E α)) (j : Nat) : (up less a j).size = a.size := by
+  fun_induction up less a j <;> simp_all
+
+@[simp] theorem size_downLoop (a : Array (E α)) (i n : Nat) :
+    (downLoop less a i n).1.size = a.size := by
+  fun_induction downLoop less a i n <;> simp_all
+
+theorem downLoop_le (a : Array (E α)) (i n : Nat) : i ≤ (downLoop less a i n).2 := by
+  fun_induction downLoop less a i n
+  · rename_i a i j1 h1 j2 j hjn hlt ih
+    have : i < j := by
+      simp only [j, j2, j1]; split
+      · split <;> omega
+      · omega
+    omega
+  · exact Nat.le_refl _
+  · exact Nat.le_refl _
+
+/-! ### reported indices -/
+
+theorem IdxInv_iff (a : Array (E α)) : IdxInv a ↔ ∀ (k : Nat) (e : E α), a[k]? = some e → e.index = k := by
+  constructor
+  · intro h k e hk
+    obtain ⟨hlt, rfl⟩ := Array.getElem?_eq_some_iff.mp hk
+    exact h k hlt
+  · intro h k hk
+    exact h k _ (Array.getElem?_eq_getElem hk)
+
+theorem IdxInv_swap (a : Array (E α)) (i j : Nat) (h : IdxInv a) : IdxInv (swap a i j) := by
+  by_cases hij : i < a.size ∧ j < a.size
+  · rw [IdxInv_iff] at h ⊢
+    intro k e hk
+    rw [getElem?_swap a i j k hij.1 hij.2] at hk
+    split at hk
+    · cases hk; simp_all
+    · split at hk
+      · cases hk; simp_all
+      · exact h k e hk
+  · unfold swap; simp only [hij, dite_false]; exact h
+
+theorem IdxInv_up (a : Array (E α)) (j : Nat) (h : IdxInv a) : IdxInv (up less a j) := by
+  fun_induction up less a j
+  · exact h
+  · rename_i ih; exact ih (IdxInv_swap _ _ _ h)
+  · exact h
+  · exact h
+
+theorem IdxInv_downLoop (a : Array (E α)) (i n : Nat) (h : IdxInv a) :
+    IdxInv (downLoop less a i n).1 := by
+  fun_induction downLoop less a i n
+  · rename_i ih; exact ih (IdxInv_swap _ _ _ h)
+  · exact h
+  · exact h
+
+/-! ### the multiset of payloads -/
+
+theorem vals_modify_index (a : Array (E α)) (i k : Nat) :
+    vals (a.modify i (fun e => { e with index := k })) = vals a := by
+  unfold vals
+  apply List.ext_getElem?
+  intro m
+  simp only [List.getElem?_map, Array.getElem?_toList, Array.getElem?_modify]
+  split
+  · cases a[m]? <;> rfl
+  · rfl
+
+theorem perm_swap (a : Array (E α)) (i j : Nat) : (vals (swap a i j)).Perm (vals a) := by
+  unfold swap
+  split
+  · rename_i h
+    simp only [vals_modify_index]
+    have := Array.swap_perm h.1 h.2
+    rw [Array.swap_def, Array.perm_iff_toList_perm] at this
+    exact this.map _
+  · exact List.Perm.refl _
+
+theorem perm_up (a : Array (E α)) (j : Nat) : (vals (up less a j)).Perm (vals a) := by
+  fun_induction up less a j
+  · exact List.Perm.refl _
+  · rename_i ih; exact ih.trans (perm_swap _ _ _)
+  · exact List.Perm.refl _
+  · exact List.Perm.refl _
+
+theorem perm_downLoop (a : Array (E α)) (i n : Nat) :
+    (vals (downLoop less a i n).1).Perm (vals a) := by
+  fun_induction downLoop less a i n
+  · rename_i ih; exact ih.trans (perm_swap _ _ _)
+  · exact List.Perm.refl _
+  · exact List.Perm.refl _
+
+/-! ### frames: what the loops leave untouched -/
+
+theorem swap_frame (a : Array (E α)) (i j k : Nat) (hi : k ≠ i) (hj : k ≠ j) :
+    (swap a i j)[k]? = a[k]? := by
+  by_cases h : i < a.size ∧ j < a.size
+  · rw [getElem?_swap a i j k h.1 h.2]; simp [hi, hj]
+  · unfold swap; simp [h]
+
+theorem up_frame (a : Array (E α)) (j k : Nat) (hk : j < k) : (up less a j)[k]? = a[k]? := by
+  fun_induction up less a j
+  · rfl
+  · rename_i ih
+    rw [ih (by omega), swap_frame _ _ _ _ (by omega) (by omega)]
+  · rfl
+  · rfl
+
+theorem downLoop_frame (a : Array (E α)) (i n k : Nat) (hk : n ≤ k) :
+    (downLoop less a i n).1[k]? = a[k]? := by
+  fun_induction downLoop less a i n
+  · rename_i j1 h1 j2 j hjn hlt ih
+    rw [ih, swap_frame _ _ _ _ (by omega) (by omega)]
+  · rfl
+  · rfl
+
+/-! ### heap predicates on a prefix -/
+
+theorem tr_fst (i j : Nat) : tr i j i = j := by
+  unfold tr; split <;> simp_all
+
+theorem tr_snd (i j : Nat) : tr i j j = i := by
+  unfold tr; simp
+
+theorem tr_ne (i j k : Nat) (hi : k ≠ i) (hj : k ≠ j) : tr i j k = k := by
+  unfold tr; simp [hi, hj]
+
+/-- heap order on the first `n` positions -/
+def HeapN (less : α → α → Bool) (a : Array (E α)) (n : Nat) : Prop :=
+  ∀ j, 0 < j → j < n → NL less a j ((j - 1) / 2)
+
+/-- heap order on the first `n` positions, except for the pairs that involve
+position `i`; the children of `i` are still not below the parent of `i` -/
+def HeapEx (less : α → α → Bool) (a : Array (E α)) (n i : Nat) : Prop :=
+  (∀ j, 0 < j → j < n → j ≠ i → (j - 1) / 2 ≠ i → NL less a j ((j - 1) / 2)) ∧
+  (∀ j, 0 < j → j < n → (j - 1) / 2 = i → 0 < i → NL less a j ((i - 1) / 2))
+
+theorem HeapInv_iff (a : Array (E α)) : HeapInv less a ↔ HeapN less a a.size := by
+  unfold HeapInv HeapN
+  constructor
+  · intro h j h0 hj
+    rw [NL_get a _ _ hj (by omega)]; exact h j hj h0
+  · intro h j hj h0
+    rw [← NL_get a _ _ hj (by omega)]; exact h j h0 hj
+
+theorem HeapN_mono (a : Array (E α)) (m n : Nat) (hmn : m ≤ n) (h : HeapN less a n) :
+    HeapN less a m :=
+  fun j h0 hj => h j h0 (by omega)
+
+theorem NL_congr (a a' : Array (E α)) (j k : Nat) (hj : gv a' j = gv a j)
+    (hk : gv a' k = gv a k) (h : NL less a j k) : NL less a' j k := by
+  unfold NL at *; rw [hj, hk]; exact h
+
+theorem HeapN_congr (a a' : Array (E α)) (n : Nat)
+    (hg : ∀ k, k < n → gv a' k = gv a k) (h : HeapN less a n) : HeapN less a' n :=
+  fun j h0 hj => NL_congr a a' _ _ (hg j hj) (hg _ (by omega)) (h j h0 hj)
+
+theorem HeapEx_congr (a a' : Array (E α)) (n i : Nat)
+    (hg : ∀ k, k < n → k ≠ i → gv a' k = gv a k) (h : HeapEx less a n i) :
+    HeapEx less a' n i := by
+  refine ⟨fun j h0 hj hji hpi => ?_, fun j h0 hj hp hi => ?_⟩
+  · exact NL_congr a a' _ _ (hg j hj hji) (hg _ (by omega) hpi) (h.1 j h0 hj hji hpi)
+  · exact NL_congr a a' _ _ (hg j hj (by omega)) (hg _ (by omega) (by omega)) (h.2 j h0 hj hp hi)
+
+theorem HeapN_of_ex (a : Array (E α)) (n i : Nat) (h : HeapEx less a n i)
+    (hp : 0 < i → NL less a i ((i - 1) / 2))
+    (hc : ∀ k, 0 < k → k < n → (k - 1) / 2 = i → NL less a k i) : HeapN less a n := by
+  intro j h0 hj
+  by_cases hji : j = i
+  · subst hji; exact hp h0
+  · by_cases hpi : (j - 1) / 2 = i
+    · have := hc j h0 hj hpi; rw [hpi]; exact this
+    · exact h.1 j h0 hj hji hpi
+
+theorem HeapEx_of_HeapN (sw : StrictWeak less) (a : Array (E α)) (n i : Nat) (hi : i < a.size)
+    (h : HeapN less a n) : HeapEx less a n i := by
+  refine ⟨fun j h0 hj _ _ => h j h0 hj, fun j h0 hj hp hi0 => ?_⟩
+  refine NL_trans sw a j i _ hi ?_ (h i hi0 (by omega))
+  have := h j h0 hj; rw [hp] at this; exact this
+
+theorem root_min (sw : StrictWeak less) (a : Array (E α)) (n : Nat) (hn : n ≤ a.size)
+    (h : HeapN less a n) : ∀ j, j < n → NL less a j 0 := by
+  intro j
+  induction j using Nat.strongRecOn with
+  | _ j ih =>
+    intro hj
+    by_cases h0 : j = 0
+    · subst h0; exact NL_refl sw a 0
+    · exact NL_trans sw a j ((j - 1) / 2) 0 (by omega) (h j (by omega) hj)
+        (ih _ (by omega) (by omega))
+
+/-! ### sift-down -/
+
+theorem swap_down_ex (a : Array (E α)) (n i j : Nat) (hn : n ≤ a.size)
+    (h : HeapEx less a n i) (hj0 : 0 < j) (hjp : (j - 1) / 2 = i) (hjn : j < n)
+    (hij : NL less a i j) (hc : ∀ k, 0 < k → k < n → (k - 1) / 2 = i → NL less a k j) :
+    HeapEx less (swap a i j) n j ∧ (0 < j → NL less (swap a i j) j ((j - 1) / 2)) := by
+  have hi : i < a.size := by omega
+  have hj : j < a.size := by omega
+  refine ⟨⟨fun m h0 hm hmj hpj => ?_, fun m h0 hm hp _ => ?_⟩, fun _ => ?_⟩
+  · rw [NL_swap a i j _ _ hi hj]
+    by_cases hmi : m = i
+    · subst hmi
+      rw [tr_fst, tr_ne _ _ _ (by omega) (by omega)]
+      exact h.2 j hj0 hjn hjp h0
+    · by_cases hpi : (m - 1) / 2 = i
+      · rw [tr_ne _ _ _ hmi hmj, hpi, tr_fst]
+        exact hc m h0 hm hpi
+      · rw [tr_ne _ _ _ hmi hmj, tr_ne _ _ _ hpi hpj]
+        exact h.1 m h0 hm hmi hpi
+  · rw [NL_swap a i j _ _ hi hj, hjp, tr_fst, tr_ne _ _ _ (by omega) (by omega)]
+    have := h.1 m h0 hm (by omega) (by omega)
+    rw [hp] at this; exact this
+  · rw [NL_swap a i j _ _ hi hj, hjp, tr_fst, tr_snd]
+    exact hij
+
+theorem down_heap (sw : StrictWeak less) (n : Nat) :
+    ∀ (d : Nat) (a : Array (E α)) (i : Nat), n - i = d → n ≤ a.size → HeapEx less a n i →
+      (0 < i → NL less a i ((i - 1) / 2)) → HeapN less (downLoop less a i n).1 n := by
+  intro d
+  induction d using Nat.strongRecOn with
+  | _ d ih =>
+    intro a i hd hn hex hp
+    rcases downLoop_step sw a i n hn with ⟨heq, hc⟩ | ⟨j, hj0, hjp, hjn, heq, hij, hc⟩
+    · rw [heq]; exact HeapN_of_ex a n i hex hp hc
+    · rw [heq]
+      obtain ⟨hex', hp'⟩ := swap_down_ex a n i j hn hex hj0 hjp hjn hij hc
+      exact ih (n - j) (by omega) (swap a i j) j rfl (by simpa using hn) hex' hp'
+
+/-! ### sift-up -/
+
+theorem swap_up_ex (sw : StrictWeak less) (a : Array (E α)) (n i p : Nat)
+    (hin : i < n) (hi0 : 0 < i) (hpe : (i - 1) / 2 = p) (h : HeapEx less a n i)
+    (hc : ∀ k, 0 < k → k < n → (k - 1) / 2 = i → NL less a k i)
+    (hi : i < a.size) (hp : p < a.size)
+    (hlt : less (a[i]'hi).val (a[p]'hp).val = true) :
+    HeapEx less (swap a p i) n p ∧
+      ∀ k, 0 < k → k < n → (k - 1) / 2 = p → NL less (swap a p i) k p := by
+  have hpp : 0 < p → NL less a p ((p - 1) / 2) :=
+    fun h0 => h.1 p h0 (by omega) (by omega) (by omega)
+  refine ⟨⟨fun m h0 hm hmp hpm => ?_, fun m h0 hm hpm hp0 => ?_⟩, fun m h0 hm hpm => ?_⟩
+  · rw [NL_swap a p i _ _ hp hi]
+    by_cases hmi : m = i
+    · omega
+    · by_cases hpi : (m - 1) / 2 = i
+      · rw [tr_ne _ _ _ hmp hmi, hpi, tr_snd]
+        have := h.2 m h0 hm hpi hi0
+        rw [hpe] at this; exact this
+      · rw [tr_ne _ _ _ hmp hmi, tr_ne _ _ _ hpm hpi]
+        exact h.1 m h0 hm hmi hpi
+  · rw [NL_swap a p i _ _ hp hi, tr_ne _ _ ((p - 1) / 2) (by omega) (by omega)]
+    by_cases hmi : m = i
+    · subst hmi; rw [tr_snd]; exact hpp hp0
+    · rw [tr_ne _ _ _ (by omega) hmi]
+      refine NL_trans sw a m p _ hp ?_ (hpp hp0)
+      have := h.1 m h0 hm hmi (by omega)
+      rw [hpm] at this; exact this
+  · rw [NL_swap a p i _ _ hp hi, tr_fst]
+    by_cases hmi : m = i
+    · subst hmi; rw [tr_snd]; exact NL_of_lt sw a _ _ hi hp hlt
+    · rw [tr_ne _ _ _ (by omega) hmi]
+      refine NL_of_lt_of_NL sw a i p m hi hp hlt ?_
+      have := h.1 m h0 hm hmi (by omega)
+      rw [hpm] at this; exact this
+
+theorem up_heap (sw : StrictWeak less) (n : Nat) (a : Array (E α)) (i : Nat) :
+    n ≤ a.size → i < n → HeapEx less a n i →
+      (∀ k, 0 < k → k < n → (k - 1) / 2 = i → NL less a k i) → HeapN less (up less a i) n := by
+  fun_induction up less a i
+  · intro hn hin hex hc
+    exact HeapN_of_ex _ n 0 hex (fun h => absurd h (by omega)) hc
+  · rename_i a j hj0 p hj hp hlt ih
+    intro hn hin hex hc
+    obtain ⟨hex', hc'⟩ := swap_up_ex sw a n j p hin (by omega) rfl hex hc hj hp hlt
+    exact ih (by simpa using hn) (by omega) hex' hc'
+  · rename_i a j hj0 p hj hp hlt
+    intro hn hin hex hc
+    refine HeapN_of_ex _ n j hex (fun _ => ?_) hc
+    rw [NL_get a _ _ hj hp]; simpa using hlt
+  · intro hn hin hex hc
+    omega
+
+/-! ### `Fix`-style repair: `down`, and `up` if nothing moved -/
+
+/-- the common tail of `Remove` and `Fix` -/
+def fixAt (less : α → α → Bool) (a : Array (E α)) (i n : Nat) : Array (E α) :=
+  if (down less a i n).2 then (down less a i n).1 else up less (down less a i n).1 i
+
+@[simp] theorem size_fixAt (a : Array (E α)) (i n : Nat) : (fixAt less a i n).size = a.size := by
+  unfold fixAt down; split <;> simp
+
+theorem IdxInv_fixAt (a : Array (E α)) (i n : Nat) (h : IdxInv a) :
+    IdxInv (fixAt less a i n) := by
+  unfold fixAt down; split
+  · exact IdxInv_downLoop _ _ _ h
+  · exact IdxInv_up _ _ (IdxInv_downLoop _ _ _ h)
+
+theorem perm_fixAt (a : Array (E α)) (i n : Nat) : (vals (fixAt less a i n)).Perm (vals a) := by
+  unfold fixAt down; split
+  · exact perm_downLoop _ _ _
+  · exact (perm_up _ _).trans (perm_downLoop _ _ _)
+
+theorem fixAt_frame (a : Array (E α)) (i n k : Nat) (hin : i < n) (hk : n ≤ k) :
+    (fixAt less a i n)[k]? = a[k]? := by
+  unfold fixAt down; split
+  · exact downLoop_frame _ _ _ _ hk
+  · rw [up_frame _ _ _ (by omega)]; exact downLoop_frame _ _ _ _ hk
+
+theorem fixAt_heap (sw : StrictWeak less) (a : Array (E α)) (i n : Nat) (hn : n ≤ a.size)
+    (hin : i < n) (hex : HeapEx less a n i) : HeapN less (fixAt less a i n) n := by
+  unfold fixAt down
+  rcases downLoop_step sw a i n hn with ⟨heq, hc⟩ | ⟨j, hj0, hjp, hjn, heq, hij, hc⟩
+  · rw [heq]
+    simp only [gt_iff_lt, Nat.lt_irrefl, decide_false, Bool.false_eq_true, if_false]
+    exact up_heap sw n a i hn hin hex hc
+  · have hle := downLoop_le (less := less) (swap a i j) j n
+    rw [← heq] at hle
+    have hgt : (downLoop less a i n).2 > i := by omega
+    simp only [hgt, decide_true, if_true]
+    rw [heq]
+    obtain ⟨hex', hp'⟩ := swap_down_ex a n i j hn hex hj0 hjp hjn hij hc
+    exact down_heap sw n (n - j) (swap a i j) j rfl (by simpa using hn) hex' hp'
+
+/-! ### dropping the last slot -/
+
+theorem gv_pop (a : Array (E α)) (k : Nat) (hk : k < a.size - 1) : gv a.pop k = gv a k := by
+  unfold gv; rw [Array.getElem?_pop]; simp [hk]
+
+theorem HeapInv_pop (a : Array (E α)) (h : HeapN less a (a.size - 1)) : HeapInv less a.pop := by
+  rw [HeapInv_iff]
+  simp only [Array.size_pop]
+  exact HeapN_congr a a.pop _ (fun k hk => gv_pop a k hk) h
+
+theorem IdxInv_pop (a : Array (E α)) (h : IdxInv a) : IdxInv a.pop := by
+  intro k hk
+  simp only [Array.size_pop] at hk
+  rw [Array.getElem_pop]; exact h k (by omega)
+
+theorem perm_pop (a : Array (E α)) (m : Nat) (hm : m < a.size) (hm' : m = a.size - 1) :
+    ((a[m]'hm).val :: vals a.pop).Perm (vals a) := by
+  subst hm'
+  have h2 : a.toList ≠ [] := by
+    intro h3
+    have : a.size = 0 := by rw [← Array.length_toList, h3]; rfl
+    omega
+  have : vals a = vals a.pop ++ [(a[a.size - 1]'hm).val] := by
+    unfold vals
+    rw [Array.toList_pop]
+    conv => lhs; rw [← List.dropLast_concat_getLast h2]
+    rw [List.map_append]
+    congr 1
+    simp [List.getLast_eq_getElem]
+  rw [this]
+  exact (List.perm_append_singleton _ _).symm
+
+theorem mem_vals (a : Array (E α)) (y : α) (h : y ∈ vals a) :
+    ∃ k, k < a.size ∧ gv a k = some y := by
+  unfold vals at h
+  rw [List.mem_map] at h
+  obtain ⟨e, he, rfl⟩ := h
+  rw [Array.mem_toList_iff, Array.mem_iff_getElem] at he
+  obtain ⟨k, hk, rfl⟩ := he
+  exact ⟨k, hk, gv_of_lt a k hk⟩
+
+/-! ### Push -/
+
+theorem gv_push_lt (a : Array (E α)) (e : E α) (k : Nat) (hk : k < a.size) :
+    gv (a.push e) k = gv a k := by
+  unfold gv; rw [Array.getElem?_push_lt hk]; simp [hk]
+
+theorem push_heapInv (sw : StrictWeak less) (a : Array (E α)) (x : α) (hH : HeapInv less a) :
+    HeapInv less (push less a x) := by
+  rw [HeapInv_iff] at hH ⊢
+  unfold push
+  simp only [Array.size_push, Nat.add_sub_cancel, size_up]
+  apply up_heap sw (a.size + 1) _ a.size (by simp) (by omega)
+  · refine ⟨fun j h0 hj hji hpi => ?_, fun j h0 hj hp hi => by omega⟩
+    exact NL_congr a _ _ _ (gv_push_lt a _ _ (by omega)) (gv_push_lt a _ _ (by omega))
+      (hH j h0 (by omega))
+  · intro k h0 hk hp; omega
+
+theorem push_idxInv (a : Array (E α)) (x : α) (hI : IdxInv a) : IdxInv (push less a x) := by
+  unfold push
+  apply IdxInv_up
+  intro k hk
+  rw [Array.getElem_push]
+  split
+  · exact hI k _
+  · simp only [Array.size_push] at hk
+    show a.size = k
+    omega
+
+theorem push_perm (a : Array (E α)) (x : α) : (vals (push less a x)).Perm (x :: vals a) := by
+  unfold push
+  refine (perm_up _ _).trans ?_
+  unfold vals
+  simp only [Array.toList_push, List.map_append, List.map_cons, List.map_nil]
+  exact List.perm_append_singleton _ _
+
+/-! ### Pop -/
+
+theorem pop_eq (a : Array (E α)) (h : 0 < a.size) :
+    pop less a =
+      some ((downLoop less (swap a 0 (a.size - 1)) 0 (a.size - 1)).1.pop,
+        (downLoop less (swap a 0 (a.size - 1)) 0 (a.size - 1)).1[a.size - 1]'(by
+          simp only [size_downLoop, size_swap]; omega)) := by
+  unfold pop down
+  simp [h]
+
+theorem pop_isSome' (a : Array (E α)) (h : 0 < a.size) : (pop less a).isSome := by
+  rw [pop_eq a h]; rfl
+
+/-- what `Pop` and `Remove` share: cut off the last slot of a repaired array -/
+theorem drop_last_spec (a A : Array (E α)) (hpos : 0 < a.size) (hsz : A.size = a.size)
+    (hheap : HeapN less A (a.size - 1)) (hidx : IdxInv A) (hperm : (vals A).Perm (vals a)) :
+    HeapInv less A.pop ∧ IdxInv A.pop ∧
+      ((A[a.size - 1]'(by omega)).val :: vals A.pop).Perm (vals a) := by
+  refine ⟨HeapInv_pop A (by rw [hsz]; exact hheap), IdxInv_pop A hidx, ?_⟩
+  exact (perm_pop A (a.size - 1) (by omega) (by omega)).trans hperm
+
+theorem pop_spec' (sw : StrictWeak less) (a a' : Array (E α)) (e : E α)
+    (hH : HeapInv less a) (hI : IdxInv a) (h : pop less a = some (a', e)) :
+    HeapInv less a' ∧ IdxInv a' ∧ (e.val :: vals a').Perm (vals a) ∧
+      (∀ y ∈ vals a, less y e.val = false) := by
+  have hpos : 0 < a.size := by
+    by_cases hp : 0 < a.size
+    · exact hp
+    · unfold pop at h; simp [hp] at h
+  rw [pop_eq a hpos] at h
+  simp only [Option.some.injEq, Prod.mk.injEq] at h
+  obtain ⟨rfl, rfl⟩ := h
+  rw [HeapInv_iff] at hH
+  have hn : a.size - 1 < a.size := by omega
+  have hex : HeapEx less (swap a 0 (a.size - 1)) (a.size - 1) 0 :=
+    HeapEx_congr a _ _ 0 (fun k hk hk0 => gv_swap_of_ne a 0 _ k hk0 (by omega))
+      (HeapEx_of_HeapN sw a _ 0 hpos (HeapN_mono a _ a.size (by omega) hH))
+  have hheap := down_heap sw (a.size - 1) _ (swap a 0 (a.size - 1)) 0 rfl
+    (by simp only [size_swap]; omega) hex (fun h => absurd h (by omega))
+  have hidx : IdxInv (downLoop less (swap a 0 (a.size - 1)) 0 (a.size - 1)).1 :=
+    IdxInv_downLoop _ _ _ (IdxInv_swap _ _ _ hI)
+  have hperm : (vals (downLoop less (swap a 0 (a.size - 1)) 0 (a.size - 1)).1).Perm (vals a) :=
+    (perm_downLoop _ _ _).trans (perm_swap _ _ _)
+  have hlast : gv (downLoop less (swap a 0 (a.size - 1)) 0 (a.size - 1)).1 (a.size - 1)
+      = gv a 0 := by
+    unfold gv
+    rw [downLoop_frame _ _ _ _ (Nat.le_refl _)]
+    have := gv_swap a 0 (a.size - 1) (a.size - 1) hpos hn
+    rw [tr_snd] at this
+    exact this
+  obtain ⟨h1, h2, h3⟩ := drop_last_spec a _ hpos (by simp) hheap hidx hperm
+  refine ⟨h1, h2, h3, ?_⟩
+  intro y hy
+  obtain ⟨k, hk, hgv⟩ := mem_vals a y hy
+  have hmin := root_min sw a a.size (Nat.le_refl _) hH k hk
+  refine hmin y _ hgv ?_
+  rw [← hlast, gv_of_lt]
+
+/-! ### Remove -/
+
+/-- the array `Remove(i)` cuts the last slot from -/
+def rmArr (less : α → α → Bool) (a : Array (E α)) (i : Nat) : Array (E α) :=
+  if a.size - 1 ≠ i then fixAt less (swap a i (a.size - 1)) i (a.size - 1) else a
+
+@[simp] theorem size_rmArr (a : Array (E α)) (i : Nat) : (rmArr less a i).size = a.size := by
+  unfold rmArr; split <;> simp
+
+theorem remove_eq (a : Array (E α)) (i : Nat) (h : i < a.size) :
+    remove less a i =
+      some ((rmArr less a i).pop, (rmArr less a i)[a.size - 1]'(by
+          simp only [size_rmArr]; omega)) := by
+  have hpos : 0 < (rmArr less a i).size := by simp only [size_rmArr]; omega
+  unfold remove
+  simp only [h, dite_true]
+  change (if h2 : 0 < (rmArr less a i).size then _ else _) = _
+  rw [dif_pos hpos]
+  show some ((rmArr less a i).pop, (rmArr less a i)[(rmArr less a i).size - 1]'(by omega)) = _
+  simp only [size_rmArr]
+
+theorem remove_spec' (sw : StrictWeak less) (a a' : Array (E α)) (e : E α) (i : Nat)
+    (hH : HeapInv less a) (hI : IdxInv a) (h : remove less a i = some (a', e)) :
+    HeapInv less a' ∧ IdxInv a' ∧ (e.val :: vals a').Perm (vals a) ∧
+      (∃ hi : i < a.size, e.val = (a[i]'hi).val) := by
+  have hi : i < a.size := by
+    by_cases hp : i < a.size
+    · exact hp
+    · unfold remove at h; simp [hp] at h
+  have hpos : 0 < a.size := by omega
+  rw [remove_eq a i hi] at h
+  simp only [Option.some.injEq, Prod.mk.injEq] at h
+  obtain ⟨rfl, rfl⟩ := h
+  rw [HeapInv_iff] at hH
+  have hn : a.size - 1 < a.size := by omega
+  have hfacts : HeapN less (rmArr less a i) (a.size - 1) ∧ IdxInv (rmArr less a i) ∧
+      (vals (rmArr less a i)).Perm (vals a) ∧ gv (rmArr less a i) (a.size - 1) = gv a i := by
+    unfold rmArr
+    split
+    · rename_i hne
+      have hin : i < a.size - 1 := by omega
+      have hex : HeapEx less (swap a i (a.size - 1)) (a.size - 1) i :=
+        HeapEx_congr a _ _ i (fun k hk hki => gv_swap_of_ne a i _ k hki (by omega))
+          (HeapEx_of_HeapN sw a _ i hi (HeapN_mono a _ a.size (by omega) hH))
+      refine ⟨fixAt_heap sw _ i _ (by simp only [size_swap]; omega) hin hex,
+        IdxInv_fixAt _ _ _ (IdxInv_swap _ _ _ hI),
+        (perm_fixAt _ _ _).trans (perm_swap _ _ _), ?_⟩
+      unfold gv
+      rw [fixAt_frame _ _ _ _ hin (Nat.le_refl _)]
+      have := gv_swap a i (a.size - 1) (a.size - 1) hi hn
+      rw [tr_snd] at this
+      exact this
+    · rename_i heq
+      have heq : a.size - 1 = i := by omega
+      refine ⟨HeapN_mono a _ a.size (by omega) hH, hI, List.Perm.refl _, by rw [heq]⟩
+  obtain ⟨hheap, hidx, hperm, hlast⟩ := hfacts
+  obtain ⟨h1, h2, h3⟩ := drop_last_spec a _ hpos (by simp) hheap hidx hperm
+  refine ⟨h1, h2, h3, hi, ?_⟩
+  rw [gv_of_lt _ _ (by simp only [size_rmArr]; omega), gv_of_lt a i hi] at hlast
+  exact Option.some.inj hlast
+
+/-! ### Fix after a priority change -/
+
+theorem setFix_eq (a : Array (E α)) (i : Nat) (x : α) (h : i < a.size) :
+    setFix less a i x = some (fixAt less (a.set i { (a[i]'h) with val := x } h) i a.size) := by
+  unfold setFix fix fixAt
+  simp [h]
+
+theorem gv_set_ne (a : Array (E α)) (i k : Nat) (e : E α) (h : i < a.size) (hk : k ≠ i) :
+    gv (a.set i e h) k = gv a k := by
+  unfold gv; rw [Array.getElem?_set]; simp [Ne.symm hk]
+
+theorem setFix_spec' (sw : StrictWeak less) (a a' : Array (E α)) (i : Nat) (x : α)
+    (hH : HeapInv less a) (hI : IdxInv a) (h : setFix less a i x = some a') :
+    HeapInv less a' ∧ IdxInv a' ∧ (vals a').Perm ((vals a).set i x) := by
+  have hi : i < a.size := by
+    by_cases hp : i < a.size
+    · exact hp
+    · unfold setFix at h; simp [hp] at h
+  rw [setFix_eq a i x hi] at h
+  simp only [Option.some.injEq] at h
+  subst h
+  rw [HeapInv_iff] at hH
+  have hex : HeapEx less (a.set i { (a[i]'hi) with val := x } hi) a.size i :=
+    HeapEx_congr a _ _ i (fun k _ hki => gv_set_ne a i k _ hi hki)
+      (HeapEx_of_HeapN sw a _ i hi hH)
+  refine ⟨?_, ?_, ?_⟩
+  · rw [HeapInv_iff]
+    simp only [size_fixAt, Array.size_set]
+    exact fixAt_heap sw _ i a.size (by simp) hi hex
+  · apply IdxInv_fixAt
+    intro k hk
+    rw [Array.getElem_set]
+    split
+    · rename_i hik; subst hik; exact hI i hi
+    · exact hI k _
+  · refine (perm_fixAt _ _ _).trans ?_
+    unfold vals
+    rw [Array.toList_set, List.map_set]
+
+/-! ### operation sequences -/
+
+theorem step_inv (sw : StrictWeak less) (op : Op α) (a a' : Array (E α))
+    (hH : HeapInv less a) (hI : IdxInv a) (h : step less a op = some a') :
+    HeapInv less a' ∧ IdxInv a' := by
+  cases op with
+  | push x =>
+    simp only [step, Option.some.injEq] at h
+    subst h
+    exact ⟨push_heapInv sw a x hH, push_idxInv a x hI⟩
+  | pop =>
+    simp only [step, Option.map_eq_some_iff] at h
+    obtain ⟨⟨a1, e⟩, hp, rfl⟩ := h
+    have := pop_spec' sw a a1 e hH hI hp
+    exact ⟨this.1, this.2.1⟩
+  | remove i =>
+    simp only [step, Option.map_eq_some_iff] at h
+    obtain ⟨⟨a1, e⟩, hp, rfl⟩ := h
+    have := remove_spec' sw a a1 e i hH hI hp
+    exact ⟨this.1, this.2.1⟩
+  | setFix i x =>
+    simp only [step] at h
+    have := setFix_spec' sw a a' i x hH hI h
+    exact ⟨this.1, this.2.1⟩
+
+theorem run_inv (sw : StrictWeak less) (ops : List (Op α)) (a₀ a : Array (E α))
+    (hH : HeapInv less a₀) (hI : IdxInv a₀) (h : run less a₀ ops = some a) :
+    HeapInv less a ∧ IdxInv a := by
+  induction ops generalizing a₀ with
+  | nil =>
+    simp only [run, Option.some.injEq] at h
+    subst h; exact ⟨hH, hI⟩
+  | cons op ops ih =>
+    simp only [run] at h
+    cases hs : step less a₀ op with
+    | none => rw [hs] at h; simp at h
+    | some a1 =>
+      rw [hs] at h
+      obtain ⟨h1, h2⟩ := step_inv sw op a₀ a1 hH hI hs
+      exact ih a1 h1 h2 h
+
+/-! ### non-vacuity -/
+
+theorem nonvacuous_example : StrictWeak (fun (x y : Nat) => decide (x < y)) ∧
+    HeapInv (fun (x y : Nat) => decide (x < y)) #[⟨1, 0⟩, ⟨5, 1⟩, ⟨3, 2⟩] ∧
+    IdxInv (#[⟨1, 0⟩, ⟨5, 1⟩, ⟨3, 2⟩] : Array (E Nat)) := by
+  refine ⟨⟨?_, ?_, ?_⟩, ?_, ?_⟩
+  · intro a; simp
+  · intro a b c h1 h2; simp only [decide_eq_true_eq] at *; omega
+  · intro a b c h1 h2; simp only [decide_eq_false_iff_not] at *; omega
+  · intro j hj h0
+    have hj' : j < 3 := hj
+    have : j = 1 ∨ j = 2 := by omega
+    rcases this with rfl | rfl <;> rfl
+  · intro j hj
+    have hj' : j < 3 := hj
+    have : j = 0 ∨ j = 1 ∨ j = 2 := by omega
+    rcases this with rfl | rfl | rfl <;> rfl
 
 end LC.Heap
